@@ -30,7 +30,7 @@ fn digest(p: &Palette) -> i64 {
     let mut h: u64 = 0;
     for c in p.color_iter() {
         let (r, g, b) = c.get_rgb();
-        h = (h.wrapping_mul(16_777_619) + pack((r, g, b)) as u64 + 1) % 4_294_967_296;
+        h = ((h << 5) + h + pack((r, g, b)) as u64 + 1) & 0xFFFF_FFFF;
     }
     h as i64
 }
